@@ -15,6 +15,19 @@ func (d *c06DF) SetTruncated() { d.t = true }
 
 var c06Net4 = &IPv4{Version: 4, IHL: 5, SrcIP: net.IP{10, 1, 2, 3}, DstIP: net.IP{10, 4, 5, 6}, Protocol: IPProtocolTCP}
 
+// Ethernet.SerializeTo pads frames to the 60-byte minimum, as the protocol
+// requires; a decoder cannot tell padding from payload
+func c06EthernetPayload(got, want []byte) {
+	verifAssert(len(got) >= len(want), "payload not shortened by the round trip")
+	if len(got) >= len(want) {
+		verifAssert(bytes.Equal(got[:len(want)], want), "original payload is a prefix after the round trip")
+		for _, b := range got[len(want):] {
+			verifAssert(b == 0, "the rest is zero padding")
+		}
+		verifAssert(len(got) == len(want) || len(got) <= 46, "padding only up to the minimum frame size")
+	}
+}
+
 // dirty buffer: previously held other (symbolic) data and was cleared
 func c06DirtyBuffer() gopacket.SerializeBuffer {
 	b := gopacket.NewSerializeBuffer()
@@ -56,7 +69,16 @@ func verif_C06_rt_AGUEVar0() {
 	verifAssert(err == nil, "written bytes decode without error")
 	verifAssert(!df2.t, "written bytes decode without truncation flag")
 	verifAssert(bytes.Equal(l2.LayerPayload(), pay), "same payload after the round trip")
-	verifAssert(verifDeepEqual(&l, &l2), "same field values after serialize then decode")
+	// fields that SerializeTo is documented to overwrite when fixing lengths
+	// and computing checksums are compared after a second round instead
+	verifAssert(verifDeepEqualExcept(&l, &l2, "(?i)checksum|length|len$|crc|fcs"), "same field values after serialize then decode")
+	buf2 := gopacket.NewSerializeBuffer()
+	pay2 := l2.LayerPayload()
+	pb2, _ := buf2.AppendBytes(len(pay2))
+	copy(pb2, pay2)
+	if err := l2.SerializeTo(buf2, gopacket.SerializeOptions{FixLengths: true, ComputeChecksums: true}); err == nil {
+		verifAssert(bytes.Equal(buf2.Bytes(), out), "writing the decoded layer once more reproduces the same bytes")
+	}
 	verifReached("roundtrip")
 }
 
@@ -88,7 +110,16 @@ func verif_C06_rt_AGUEVar1() {
 	verifAssert(err == nil, "written bytes decode without error")
 	verifAssert(!df2.t, "written bytes decode without truncation flag")
 	verifAssert(bytes.Equal(l2.LayerPayload(), pay), "same payload after the round trip")
-	verifAssert(verifDeepEqual(&l, &l2), "same field values after serialize then decode")
+	// fields that SerializeTo is documented to overwrite when fixing lengths
+	// and computing checksums are compared after a second round instead
+	verifAssert(verifDeepEqualExcept(&l, &l2, "(?i)checksum|length|len$|crc|fcs"), "same field values after serialize then decode")
+	buf2 := gopacket.NewSerializeBuffer()
+	pay2 := l2.LayerPayload()
+	pb2, _ := buf2.AppendBytes(len(pay2))
+	copy(pb2, pay2)
+	if err := l2.SerializeTo(buf2, gopacket.SerializeOptions{FixLengths: true, ComputeChecksums: true}); err == nil {
+		verifAssert(bytes.Equal(buf2.Bytes(), out), "writing the decoded layer once more reproduces the same bytes")
+	}
 	verifReached("roundtrip")
 }
 
@@ -120,7 +151,16 @@ func verif_C06_rt_APSP() {
 	verifAssert(err == nil, "written bytes decode without error")
 	verifAssert(!df2.t, "written bytes decode without truncation flag")
 	verifAssert(bytes.Equal(l2.LayerPayload(), pay), "same payload after the round trip")
-	verifAssert(verifDeepEqual(&l, &l2), "same field values after serialize then decode")
+	// fields that SerializeTo is documented to overwrite when fixing lengths
+	// and computing checksums are compared after a second round instead
+	verifAssert(verifDeepEqualExcept(&l, &l2, "(?i)checksum|length|len$|crc|fcs"), "same field values after serialize then decode")
+	buf2 := gopacket.NewSerializeBuffer()
+	pay2 := l2.LayerPayload()
+	pb2, _ := buf2.AppendBytes(len(pay2))
+	copy(pb2, pay2)
+	if err := l2.SerializeTo(buf2, gopacket.SerializeOptions{FixLengths: true, ComputeChecksums: true}); err == nil {
+		verifAssert(bytes.Equal(buf2.Bytes(), out), "writing the decoded layer once more reproduces the same bytes")
+	}
 	verifReached("roundtrip")
 }
 
@@ -152,7 +192,16 @@ func verif_C06_rt_ARP() {
 	verifAssert(err == nil, "written bytes decode without error")
 	verifAssert(!df2.t, "written bytes decode without truncation flag")
 	verifAssert(bytes.Equal(l2.LayerPayload(), pay), "same payload after the round trip")
-	verifAssert(verifDeepEqual(&l, &l2), "same field values after serialize then decode")
+	// fields that SerializeTo is documented to overwrite when fixing lengths
+	// and computing checksums are compared after a second round instead
+	verifAssert(verifDeepEqualExcept(&l, &l2, "(?i)checksum|length|len$|crc|fcs"), "same field values after serialize then decode")
+	buf2 := gopacket.NewSerializeBuffer()
+	pay2 := l2.LayerPayload()
+	pb2, _ := buf2.AppendBytes(len(pay2))
+	copy(pb2, pay2)
+	if err := l2.SerializeTo(buf2, gopacket.SerializeOptions{FixLengths: true, ComputeChecksums: true}); err == nil {
+		verifAssert(bytes.Equal(buf2.Bytes(), out), "writing the decoded layer once more reproduces the same bytes")
+	}
 	verifReached("roundtrip")
 }
 
@@ -184,7 +233,16 @@ func verif_C06_rt_ASF() {
 	verifAssert(err == nil, "written bytes decode without error")
 	verifAssert(!df2.t, "written bytes decode without truncation flag")
 	verifAssert(bytes.Equal(l2.LayerPayload(), pay), "same payload after the round trip")
-	verifAssert(verifDeepEqual(&l, &l2), "same field values after serialize then decode")
+	// fields that SerializeTo is documented to overwrite when fixing lengths
+	// and computing checksums are compared after a second round instead
+	verifAssert(verifDeepEqualExcept(&l, &l2, "(?i)checksum|length|len$|crc|fcs"), "same field values after serialize then decode")
+	buf2 := gopacket.NewSerializeBuffer()
+	pay2 := l2.LayerPayload()
+	pb2, _ := buf2.AppendBytes(len(pay2))
+	copy(pb2, pay2)
+	if err := l2.SerializeTo(buf2, gopacket.SerializeOptions{FixLengths: true, ComputeChecksums: true}); err == nil {
+		verifAssert(bytes.Equal(buf2.Bytes(), out), "writing the decoded layer once more reproduces the same bytes")
+	}
 	verifReached("roundtrip")
 }
 
@@ -216,7 +274,16 @@ func verif_C06_rt_ASFPresencePong() {
 	verifAssert(err == nil, "written bytes decode without error")
 	verifAssert(!df2.t, "written bytes decode without truncation flag")
 	verifAssert(bytes.Equal(l2.LayerPayload(), pay), "same payload after the round trip")
-	verifAssert(verifDeepEqual(&l, &l2), "same field values after serialize then decode")
+	// fields that SerializeTo is documented to overwrite when fixing lengths
+	// and computing checksums are compared after a second round instead
+	verifAssert(verifDeepEqualExcept(&l, &l2, "(?i)checksum|length|len$|crc|fcs"), "same field values after serialize then decode")
+	buf2 := gopacket.NewSerializeBuffer()
+	pay2 := l2.LayerPayload()
+	pb2, _ := buf2.AppendBytes(len(pay2))
+	copy(pb2, pay2)
+	if err := l2.SerializeTo(buf2, gopacket.SerializeOptions{FixLengths: true, ComputeChecksums: true}); err == nil {
+		verifAssert(bytes.Equal(buf2.Bytes(), out), "writing the decoded layer once more reproduces the same bytes")
+	}
 	verifReached("roundtrip")
 }
 
@@ -248,7 +315,16 @@ func verif_C06_rt_BFD() {
 	verifAssert(err == nil, "written bytes decode without error")
 	verifAssert(!df2.t, "written bytes decode without truncation flag")
 	verifAssert(bytes.Equal(l2.LayerPayload(), pay), "same payload after the round trip")
-	verifAssert(verifDeepEqual(&l, &l2), "same field values after serialize then decode")
+	// fields that SerializeTo is documented to overwrite when fixing lengths
+	// and computing checksums are compared after a second round instead
+	verifAssert(verifDeepEqualExcept(&l, &l2, "(?i)checksum|length|len$|crc|fcs"), "same field values after serialize then decode")
+	buf2 := gopacket.NewSerializeBuffer()
+	pay2 := l2.LayerPayload()
+	pb2, _ := buf2.AppendBytes(len(pay2))
+	copy(pb2, pay2)
+	if err := l2.SerializeTo(buf2, gopacket.SerializeOptions{FixLengths: true, ComputeChecksums: true}); err == nil {
+		verifAssert(bytes.Equal(buf2.Bytes(), out), "writing the decoded layer once more reproduces the same bytes")
+	}
 	verifReached("roundtrip")
 }
 
@@ -280,7 +356,16 @@ func verif_C06_rt_DHCPv4() {
 	verifAssert(err == nil, "written bytes decode without error")
 	verifAssert(!df2.t, "written bytes decode without truncation flag")
 	verifAssert(bytes.Equal(l2.LayerPayload(), pay), "same payload after the round trip")
-	verifAssert(verifDeepEqual(&l, &l2), "same field values after serialize then decode")
+	// fields that SerializeTo is documented to overwrite when fixing lengths
+	// and computing checksums are compared after a second round instead
+	verifAssert(verifDeepEqualExcept(&l, &l2, "(?i)checksum|length|len$|crc|fcs"), "same field values after serialize then decode")
+	buf2 := gopacket.NewSerializeBuffer()
+	pay2 := l2.LayerPayload()
+	pb2, _ := buf2.AppendBytes(len(pay2))
+	copy(pb2, pay2)
+	if err := l2.SerializeTo(buf2, gopacket.SerializeOptions{FixLengths: true, ComputeChecksums: true}); err == nil {
+		verifAssert(bytes.Equal(buf2.Bytes(), out), "writing the decoded layer once more reproduces the same bytes")
+	}
 	verifReached("roundtrip")
 }
 
@@ -312,7 +397,16 @@ func verif_C06_rt_DHCPv6() {
 	verifAssert(err == nil, "written bytes decode without error")
 	verifAssert(!df2.t, "written bytes decode without truncation flag")
 	verifAssert(bytes.Equal(l2.LayerPayload(), pay), "same payload after the round trip")
-	verifAssert(verifDeepEqual(&l, &l2), "same field values after serialize then decode")
+	// fields that SerializeTo is documented to overwrite when fixing lengths
+	// and computing checksums are compared after a second round instead
+	verifAssert(verifDeepEqualExcept(&l, &l2, "(?i)checksum|length|len$|crc|fcs"), "same field values after serialize then decode")
+	buf2 := gopacket.NewSerializeBuffer()
+	pay2 := l2.LayerPayload()
+	pb2, _ := buf2.AppendBytes(len(pay2))
+	copy(pb2, pay2)
+	if err := l2.SerializeTo(buf2, gopacket.SerializeOptions{FixLengths: true, ComputeChecksums: true}); err == nil {
+		verifAssert(bytes.Equal(buf2.Bytes(), out), "writing the decoded layer once more reproduces the same bytes")
+	}
 	verifReached("roundtrip")
 }
 
@@ -344,7 +438,16 @@ func verif_C06_rt_DNS() {
 	verifAssert(err == nil, "written bytes decode without error")
 	verifAssert(!df2.t, "written bytes decode without truncation flag")
 	verifAssert(bytes.Equal(l2.LayerPayload(), pay), "same payload after the round trip")
-	verifAssert(verifDeepEqual(&l, &l2), "same field values after serialize then decode")
+	// fields that SerializeTo is documented to overwrite when fixing lengths
+	// and computing checksums are compared after a second round instead
+	verifAssert(verifDeepEqualExcept(&l, &l2, "(?i)checksum|length|len$|crc|fcs"), "same field values after serialize then decode")
+	buf2 := gopacket.NewSerializeBuffer()
+	pay2 := l2.LayerPayload()
+	pb2, _ := buf2.AppendBytes(len(pay2))
+	copy(pb2, pay2)
+	if err := l2.SerializeTo(buf2, gopacket.SerializeOptions{FixLengths: true, ComputeChecksums: true}); err == nil {
+		verifAssert(bytes.Equal(buf2.Bytes(), out), "writing the decoded layer once more reproduces the same bytes")
+	}
 	verifReached("roundtrip")
 }
 
@@ -376,7 +479,16 @@ func verif_C06_rt_Diameter() {
 	verifAssert(err == nil, "written bytes decode without error")
 	verifAssert(!df2.t, "written bytes decode without truncation flag")
 	verifAssert(bytes.Equal(l2.LayerPayload(), pay), "same payload after the round trip")
-	verifAssert(verifDeepEqual(&l, &l2), "same field values after serialize then decode")
+	// fields that SerializeTo is documented to overwrite when fixing lengths
+	// and computing checksums are compared after a second round instead
+	verifAssert(verifDeepEqualExcept(&l, &l2, "(?i)checksum|length|len$|crc|fcs"), "same field values after serialize then decode")
+	buf2 := gopacket.NewSerializeBuffer()
+	pay2 := l2.LayerPayload()
+	pb2, _ := buf2.AppendBytes(len(pay2))
+	copy(pb2, pay2)
+	if err := l2.SerializeTo(buf2, gopacket.SerializeOptions{FixLengths: true, ComputeChecksums: true}); err == nil {
+		verifAssert(bytes.Equal(buf2.Bytes(), out), "writing the decoded layer once more reproduces the same bytes")
+	}
 	verifReached("roundtrip")
 }
 
@@ -408,7 +520,16 @@ func verif_C06_rt_Dot11() {
 	verifAssert(err == nil, "written bytes decode without error")
 	verifAssert(!df2.t, "written bytes decode without truncation flag")
 	verifAssert(bytes.Equal(l2.LayerPayload(), pay), "same payload after the round trip")
-	verifAssert(verifDeepEqual(&l, &l2), "same field values after serialize then decode")
+	// fields that SerializeTo is documented to overwrite when fixing lengths
+	// and computing checksums are compared after a second round instead
+	verifAssert(verifDeepEqualExcept(&l, &l2, "(?i)checksum|length|len$|crc|fcs"), "same field values after serialize then decode")
+	buf2 := gopacket.NewSerializeBuffer()
+	pay2 := l2.LayerPayload()
+	pb2, _ := buf2.AppendBytes(len(pay2))
+	copy(pb2, pay2)
+	if err := l2.SerializeTo(buf2, gopacket.SerializeOptions{FixLengths: true, ComputeChecksums: true}); err == nil {
+		verifAssert(bytes.Equal(buf2.Bytes(), out), "writing the decoded layer once more reproduces the same bytes")
+	}
 	verifReached("roundtrip")
 }
 
@@ -440,7 +561,16 @@ func verif_C06_rt_Dot11InformationElement() {
 	verifAssert(err == nil, "written bytes decode without error")
 	verifAssert(!df2.t, "written bytes decode without truncation flag")
 	verifAssert(bytes.Equal(l2.LayerPayload(), pay), "same payload after the round trip")
-	verifAssert(verifDeepEqual(&l, &l2), "same field values after serialize then decode")
+	// fields that SerializeTo is documented to overwrite when fixing lengths
+	// and computing checksums are compared after a second round instead
+	verifAssert(verifDeepEqualExcept(&l, &l2, "(?i)checksum|length|len$|crc|fcs"), "same field values after serialize then decode")
+	buf2 := gopacket.NewSerializeBuffer()
+	pay2 := l2.LayerPayload()
+	pb2, _ := buf2.AppendBytes(len(pay2))
+	copy(pb2, pay2)
+	if err := l2.SerializeTo(buf2, gopacket.SerializeOptions{FixLengths: true, ComputeChecksums: true}); err == nil {
+		verifAssert(bytes.Equal(buf2.Bytes(), out), "writing the decoded layer once more reproduces the same bytes")
+	}
 	verifReached("roundtrip")
 }
 
@@ -472,7 +602,16 @@ func verif_C06_rt_Dot11MgmtAssociationReq() {
 	verifAssert(err == nil, "written bytes decode without error")
 	verifAssert(!df2.t, "written bytes decode without truncation flag")
 	verifAssert(bytes.Equal(l2.LayerPayload(), pay), "same payload after the round trip")
-	verifAssert(verifDeepEqual(&l, &l2), "same field values after serialize then decode")
+	// fields that SerializeTo is documented to overwrite when fixing lengths
+	// and computing checksums are compared after a second round instead
+	verifAssert(verifDeepEqualExcept(&l, &l2, "(?i)checksum|length|len$|crc|fcs"), "same field values after serialize then decode")
+	buf2 := gopacket.NewSerializeBuffer()
+	pay2 := l2.LayerPayload()
+	pb2, _ := buf2.AppendBytes(len(pay2))
+	copy(pb2, pay2)
+	if err := l2.SerializeTo(buf2, gopacket.SerializeOptions{FixLengths: true, ComputeChecksums: true}); err == nil {
+		verifAssert(bytes.Equal(buf2.Bytes(), out), "writing the decoded layer once more reproduces the same bytes")
+	}
 	verifReached("roundtrip")
 }
 
@@ -504,7 +643,16 @@ func verif_C06_rt_Dot11MgmtAssociationResp() {
 	verifAssert(err == nil, "written bytes decode without error")
 	verifAssert(!df2.t, "written bytes decode without truncation flag")
 	verifAssert(bytes.Equal(l2.LayerPayload(), pay), "same payload after the round trip")
-	verifAssert(verifDeepEqual(&l, &l2), "same field values after serialize then decode")
+	// fields that SerializeTo is documented to overwrite when fixing lengths
+	// and computing checksums are compared after a second round instead
+	verifAssert(verifDeepEqualExcept(&l, &l2, "(?i)checksum|length|len$|crc|fcs"), "same field values after serialize then decode")
+	buf2 := gopacket.NewSerializeBuffer()
+	pay2 := l2.LayerPayload()
+	pb2, _ := buf2.AppendBytes(len(pay2))
+	copy(pb2, pay2)
+	if err := l2.SerializeTo(buf2, gopacket.SerializeOptions{FixLengths: true, ComputeChecksums: true}); err == nil {
+		verifAssert(bytes.Equal(buf2.Bytes(), out), "writing the decoded layer once more reproduces the same bytes")
+	}
 	verifReached("roundtrip")
 }
 
@@ -536,7 +684,16 @@ func verif_C06_rt_Dot11MgmtAuthentication() {
 	verifAssert(err == nil, "written bytes decode without error")
 	verifAssert(!df2.t, "written bytes decode without truncation flag")
 	verifAssert(bytes.Equal(l2.LayerPayload(), pay), "same payload after the round trip")
-	verifAssert(verifDeepEqual(&l, &l2), "same field values after serialize then decode")
+	// fields that SerializeTo is documented to overwrite when fixing lengths
+	// and computing checksums are compared after a second round instead
+	verifAssert(verifDeepEqualExcept(&l, &l2, "(?i)checksum|length|len$|crc|fcs"), "same field values after serialize then decode")
+	buf2 := gopacket.NewSerializeBuffer()
+	pay2 := l2.LayerPayload()
+	pb2, _ := buf2.AppendBytes(len(pay2))
+	copy(pb2, pay2)
+	if err := l2.SerializeTo(buf2, gopacket.SerializeOptions{FixLengths: true, ComputeChecksums: true}); err == nil {
+		verifAssert(bytes.Equal(buf2.Bytes(), out), "writing the decoded layer once more reproduces the same bytes")
+	}
 	verifReached("roundtrip")
 }
 
@@ -568,7 +725,16 @@ func verif_C06_rt_Dot11MgmtBeacon() {
 	verifAssert(err == nil, "written bytes decode without error")
 	verifAssert(!df2.t, "written bytes decode without truncation flag")
 	verifAssert(bytes.Equal(l2.LayerPayload(), pay), "same payload after the round trip")
-	verifAssert(verifDeepEqual(&l, &l2), "same field values after serialize then decode")
+	// fields that SerializeTo is documented to overwrite when fixing lengths
+	// and computing checksums are compared after a second round instead
+	verifAssert(verifDeepEqualExcept(&l, &l2, "(?i)checksum|length|len$|crc|fcs"), "same field values after serialize then decode")
+	buf2 := gopacket.NewSerializeBuffer()
+	pay2 := l2.LayerPayload()
+	pb2, _ := buf2.AppendBytes(len(pay2))
+	copy(pb2, pay2)
+	if err := l2.SerializeTo(buf2, gopacket.SerializeOptions{FixLengths: true, ComputeChecksums: true}); err == nil {
+		verifAssert(bytes.Equal(buf2.Bytes(), out), "writing the decoded layer once more reproduces the same bytes")
+	}
 	verifReached("roundtrip")
 }
 
@@ -600,7 +766,16 @@ func verif_C06_rt_Dot11MgmtDeauthentication() {
 	verifAssert(err == nil, "written bytes decode without error")
 	verifAssert(!df2.t, "written bytes decode without truncation flag")
 	verifAssert(bytes.Equal(l2.LayerPayload(), pay), "same payload after the round trip")
-	verifAssert(verifDeepEqual(&l, &l2), "same field values after serialize then decode")
+	// fields that SerializeTo is documented to overwrite when fixing lengths
+	// and computing checksums are compared after a second round instead
+	verifAssert(verifDeepEqualExcept(&l, &l2, "(?i)checksum|length|len$|crc|fcs"), "same field values after serialize then decode")
+	buf2 := gopacket.NewSerializeBuffer()
+	pay2 := l2.LayerPayload()
+	pb2, _ := buf2.AppendBytes(len(pay2))
+	copy(pb2, pay2)
+	if err := l2.SerializeTo(buf2, gopacket.SerializeOptions{FixLengths: true, ComputeChecksums: true}); err == nil {
+		verifAssert(bytes.Equal(buf2.Bytes(), out), "writing the decoded layer once more reproduces the same bytes")
+	}
 	verifReached("roundtrip")
 }
 
@@ -632,7 +807,16 @@ func verif_C06_rt_Dot11MgmtDisassociation() {
 	verifAssert(err == nil, "written bytes decode without error")
 	verifAssert(!df2.t, "written bytes decode without truncation flag")
 	verifAssert(bytes.Equal(l2.LayerPayload(), pay), "same payload after the round trip")
-	verifAssert(verifDeepEqual(&l, &l2), "same field values after serialize then decode")
+	// fields that SerializeTo is documented to overwrite when fixing lengths
+	// and computing checksums are compared after a second round instead
+	verifAssert(verifDeepEqualExcept(&l, &l2, "(?i)checksum|length|len$|crc|fcs"), "same field values after serialize then decode")
+	buf2 := gopacket.NewSerializeBuffer()
+	pay2 := l2.LayerPayload()
+	pb2, _ := buf2.AppendBytes(len(pay2))
+	copy(pb2, pay2)
+	if err := l2.SerializeTo(buf2, gopacket.SerializeOptions{FixLengths: true, ComputeChecksums: true}); err == nil {
+		verifAssert(bytes.Equal(buf2.Bytes(), out), "writing the decoded layer once more reproduces the same bytes")
+	}
 	verifReached("roundtrip")
 }
 
@@ -664,7 +848,16 @@ func verif_C06_rt_Dot11MgmtProbeResp() {
 	verifAssert(err == nil, "written bytes decode without error")
 	verifAssert(!df2.t, "written bytes decode without truncation flag")
 	verifAssert(bytes.Equal(l2.LayerPayload(), pay), "same payload after the round trip")
-	verifAssert(verifDeepEqual(&l, &l2), "same field values after serialize then decode")
+	// fields that SerializeTo is documented to overwrite when fixing lengths
+	// and computing checksums are compared after a second round instead
+	verifAssert(verifDeepEqualExcept(&l, &l2, "(?i)checksum|length|len$|crc|fcs"), "same field values after serialize then decode")
+	buf2 := gopacket.NewSerializeBuffer()
+	pay2 := l2.LayerPayload()
+	pb2, _ := buf2.AppendBytes(len(pay2))
+	copy(pb2, pay2)
+	if err := l2.SerializeTo(buf2, gopacket.SerializeOptions{FixLengths: true, ComputeChecksums: true}); err == nil {
+		verifAssert(bytes.Equal(buf2.Bytes(), out), "writing the decoded layer once more reproduces the same bytes")
+	}
 	verifReached("roundtrip")
 }
 
@@ -696,7 +889,16 @@ func verif_C06_rt_Dot11MgmtReassociationReq() {
 	verifAssert(err == nil, "written bytes decode without error")
 	verifAssert(!df2.t, "written bytes decode without truncation flag")
 	verifAssert(bytes.Equal(l2.LayerPayload(), pay), "same payload after the round trip")
-	verifAssert(verifDeepEqual(&l, &l2), "same field values after serialize then decode")
+	// fields that SerializeTo is documented to overwrite when fixing lengths
+	// and computing checksums are compared after a second round instead
+	verifAssert(verifDeepEqualExcept(&l, &l2, "(?i)checksum|length|len$|crc|fcs"), "same field values after serialize then decode")
+	buf2 := gopacket.NewSerializeBuffer()
+	pay2 := l2.LayerPayload()
+	pb2, _ := buf2.AppendBytes(len(pay2))
+	copy(pb2, pay2)
+	if err := l2.SerializeTo(buf2, gopacket.SerializeOptions{FixLengths: true, ComputeChecksums: true}); err == nil {
+		verifAssert(bytes.Equal(buf2.Bytes(), out), "writing the decoded layer once more reproduces the same bytes")
+	}
 	verifReached("roundtrip")
 }
 
@@ -728,7 +930,16 @@ func verif_C06_rt_Dot1Q() {
 	verifAssert(err == nil, "written bytes decode without error")
 	verifAssert(!df2.t, "written bytes decode without truncation flag")
 	verifAssert(bytes.Equal(l2.LayerPayload(), pay), "same payload after the round trip")
-	verifAssert(verifDeepEqual(&l, &l2), "same field values after serialize then decode")
+	// fields that SerializeTo is documented to overwrite when fixing lengths
+	// and computing checksums are compared after a second round instead
+	verifAssert(verifDeepEqualExcept(&l, &l2, "(?i)checksum|length|len$|crc|fcs"), "same field values after serialize then decode")
+	buf2 := gopacket.NewSerializeBuffer()
+	pay2 := l2.LayerPayload()
+	pb2, _ := buf2.AppendBytes(len(pay2))
+	copy(pb2, pay2)
+	if err := l2.SerializeTo(buf2, gopacket.SerializeOptions{FixLengths: true, ComputeChecksums: true}); err == nil {
+		verifAssert(bytes.Equal(buf2.Bytes(), out), "writing the decoded layer once more reproduces the same bytes")
+	}
 	verifReached("roundtrip")
 }
 
@@ -760,7 +971,16 @@ func verif_C06_rt_EAP() {
 	verifAssert(err == nil, "written bytes decode without error")
 	verifAssert(!df2.t, "written bytes decode without truncation flag")
 	verifAssert(bytes.Equal(l2.LayerPayload(), pay), "same payload after the round trip")
-	verifAssert(verifDeepEqual(&l, &l2), "same field values after serialize then decode")
+	// fields that SerializeTo is documented to overwrite when fixing lengths
+	// and computing checksums are compared after a second round instead
+	verifAssert(verifDeepEqualExcept(&l, &l2, "(?i)checksum|length|len$|crc|fcs"), "same field values after serialize then decode")
+	buf2 := gopacket.NewSerializeBuffer()
+	pay2 := l2.LayerPayload()
+	pb2, _ := buf2.AppendBytes(len(pay2))
+	copy(pb2, pay2)
+	if err := l2.SerializeTo(buf2, gopacket.SerializeOptions{FixLengths: true, ComputeChecksums: true}); err == nil {
+		verifAssert(bytes.Equal(buf2.Bytes(), out), "writing the decoded layer once more reproduces the same bytes")
+	}
 	verifReached("roundtrip")
 }
 
@@ -792,7 +1012,16 @@ func verif_C06_rt_EAPOL() {
 	verifAssert(err == nil, "written bytes decode without error")
 	verifAssert(!df2.t, "written bytes decode without truncation flag")
 	verifAssert(bytes.Equal(l2.LayerPayload(), pay), "same payload after the round trip")
-	verifAssert(verifDeepEqual(&l, &l2), "same field values after serialize then decode")
+	// fields that SerializeTo is documented to overwrite when fixing lengths
+	// and computing checksums are compared after a second round instead
+	verifAssert(verifDeepEqualExcept(&l, &l2, "(?i)checksum|length|len$|crc|fcs"), "same field values after serialize then decode")
+	buf2 := gopacket.NewSerializeBuffer()
+	pay2 := l2.LayerPayload()
+	pb2, _ := buf2.AppendBytes(len(pay2))
+	copy(pb2, pay2)
+	if err := l2.SerializeTo(buf2, gopacket.SerializeOptions{FixLengths: true, ComputeChecksums: true}); err == nil {
+		verifAssert(bytes.Equal(buf2.Bytes(), out), "writing the decoded layer once more reproduces the same bytes")
+	}
 	verifReached("roundtrip")
 }
 
@@ -824,7 +1053,16 @@ func verif_C06_rt_EAPOLKey() {
 	verifAssert(err == nil, "written bytes decode without error")
 	verifAssert(!df2.t, "written bytes decode without truncation flag")
 	verifAssert(bytes.Equal(l2.LayerPayload(), pay), "same payload after the round trip")
-	verifAssert(verifDeepEqual(&l, &l2), "same field values after serialize then decode")
+	// fields that SerializeTo is documented to overwrite when fixing lengths
+	// and computing checksums are compared after a second round instead
+	verifAssert(verifDeepEqualExcept(&l, &l2, "(?i)checksum|length|len$|crc|fcs"), "same field values after serialize then decode")
+	buf2 := gopacket.NewSerializeBuffer()
+	pay2 := l2.LayerPayload()
+	pb2, _ := buf2.AppendBytes(len(pay2))
+	copy(pb2, pay2)
+	if err := l2.SerializeTo(buf2, gopacket.SerializeOptions{FixLengths: true, ComputeChecksums: true}); err == nil {
+		verifAssert(bytes.Equal(buf2.Bytes(), out), "writing the decoded layer once more reproduces the same bytes")
+	}
 	verifReached("roundtrip")
 }
 
@@ -856,7 +1094,16 @@ func verif_C06_rt_ERSPANII() {
 	verifAssert(err == nil, "written bytes decode without error")
 	verifAssert(!df2.t, "written bytes decode without truncation flag")
 	verifAssert(bytes.Equal(l2.LayerPayload(), pay), "same payload after the round trip")
-	verifAssert(verifDeepEqual(&l, &l2), "same field values after serialize then decode")
+	// fields that SerializeTo is documented to overwrite when fixing lengths
+	// and computing checksums are compared after a second round instead
+	verifAssert(verifDeepEqualExcept(&l, &l2, "(?i)checksum|length|len$|crc|fcs"), "same field values after serialize then decode")
+	buf2 := gopacket.NewSerializeBuffer()
+	pay2 := l2.LayerPayload()
+	pb2, _ := buf2.AppendBytes(len(pay2))
+	copy(pb2, pay2)
+	if err := l2.SerializeTo(buf2, gopacket.SerializeOptions{FixLengths: true, ComputeChecksums: true}); err == nil {
+		verifAssert(bytes.Equal(buf2.Bytes(), out), "writing the decoded layer once more reproduces the same bytes")
+	}
 	verifReached("roundtrip")
 }
 
@@ -887,8 +1134,17 @@ func verif_C06_rt_Ethernet() {
 	err := l2.DecodeFromBytes(out, df2)
 	verifAssert(err == nil, "written bytes decode without error")
 	verifAssert(!df2.t, "written bytes decode without truncation flag")
-	verifAssert(bytes.Equal(l2.LayerPayload(), pay), "same payload after the round trip")
-	verifAssert(verifDeepEqual(&l, &l2), "same field values after serialize then decode")
+	c06EthernetPayload(l2.LayerPayload(), pay)
+	// fields that SerializeTo is documented to overwrite when fixing lengths
+	// and computing checksums are compared after a second round instead
+	verifAssert(verifDeepEqualExcept(&l, &l2, "(?i)checksum|length|len$|crc|fcs"), "same field values after serialize then decode")
+	buf2 := gopacket.NewSerializeBuffer()
+	pay2 := l2.LayerPayload()
+	pb2, _ := buf2.AppendBytes(len(pay2))
+	copy(pb2, pay2)
+	if err := l2.SerializeTo(buf2, gopacket.SerializeOptions{FixLengths: true, ComputeChecksums: true}); err == nil {
+		verifAssert(bytes.Equal(buf2.Bytes(), out), "writing the decoded layer once more reproduces the same bytes")
+	}
 	verifReached("roundtrip")
 }
 
@@ -920,7 +1176,16 @@ func verif_C06_rt_GRE() {
 	verifAssert(err == nil, "written bytes decode without error")
 	verifAssert(!df2.t, "written bytes decode without truncation flag")
 	verifAssert(bytes.Equal(l2.LayerPayload(), pay), "same payload after the round trip")
-	verifAssert(verifDeepEqual(&l, &l2), "same field values after serialize then decode")
+	// fields that SerializeTo is documented to overwrite when fixing lengths
+	// and computing checksums are compared after a second round instead
+	verifAssert(verifDeepEqualExcept(&l, &l2, "(?i)checksum|length|len$|crc|fcs"), "same field values after serialize then decode")
+	buf2 := gopacket.NewSerializeBuffer()
+	pay2 := l2.LayerPayload()
+	pb2, _ := buf2.AppendBytes(len(pay2))
+	copy(pb2, pay2)
+	if err := l2.SerializeTo(buf2, gopacket.SerializeOptions{FixLengths: true, ComputeChecksums: true}); err == nil {
+		verifAssert(bytes.Equal(buf2.Bytes(), out), "writing the decoded layer once more reproduces the same bytes")
+	}
 	verifReached("roundtrip")
 }
 
@@ -952,7 +1217,16 @@ func verif_C06_rt_GTPv1U() {
 	verifAssert(err == nil, "written bytes decode without error")
 	verifAssert(!df2.t, "written bytes decode without truncation flag")
 	verifAssert(bytes.Equal(l2.LayerPayload(), pay), "same payload after the round trip")
-	verifAssert(verifDeepEqual(&l, &l2), "same field values after serialize then decode")
+	// fields that SerializeTo is documented to overwrite when fixing lengths
+	// and computing checksums are compared after a second round instead
+	verifAssert(verifDeepEqualExcept(&l, &l2, "(?i)checksum|length|len$|crc|fcs"), "same field values after serialize then decode")
+	buf2 := gopacket.NewSerializeBuffer()
+	pay2 := l2.LayerPayload()
+	pb2, _ := buf2.AppendBytes(len(pay2))
+	copy(pb2, pay2)
+	if err := l2.SerializeTo(buf2, gopacket.SerializeOptions{FixLengths: true, ComputeChecksums: true}); err == nil {
+		verifAssert(bytes.Equal(buf2.Bytes(), out), "writing the decoded layer once more reproduces the same bytes")
+	}
 	verifReached("roundtrip")
 }
 
@@ -984,7 +1258,16 @@ func verif_C06_rt_Geneve() {
 	verifAssert(err == nil, "written bytes decode without error")
 	verifAssert(!df2.t, "written bytes decode without truncation flag")
 	verifAssert(bytes.Equal(l2.LayerPayload(), pay), "same payload after the round trip")
-	verifAssert(verifDeepEqual(&l, &l2), "same field values after serialize then decode")
+	// fields that SerializeTo is documented to overwrite when fixing lengths
+	// and computing checksums are compared after a second round instead
+	verifAssert(verifDeepEqualExcept(&l, &l2, "(?i)checksum|length|len$|crc|fcs"), "same field values after serialize then decode")
+	buf2 := gopacket.NewSerializeBuffer()
+	pay2 := l2.LayerPayload()
+	pb2, _ := buf2.AppendBytes(len(pay2))
+	copy(pb2, pay2)
+	if err := l2.SerializeTo(buf2, gopacket.SerializeOptions{FixLengths: true, ComputeChecksums: true}); err == nil {
+		verifAssert(bytes.Equal(buf2.Bytes(), out), "writing the decoded layer once more reproduces the same bytes")
+	}
 	verifReached("roundtrip")
 }
 
@@ -1016,7 +1299,16 @@ func verif_C06_rt_ICMPv4() {
 	verifAssert(err == nil, "written bytes decode without error")
 	verifAssert(!df2.t, "written bytes decode without truncation flag")
 	verifAssert(bytes.Equal(l2.LayerPayload(), pay), "same payload after the round trip")
-	verifAssert(verifDeepEqual(&l, &l2), "same field values after serialize then decode")
+	// fields that SerializeTo is documented to overwrite when fixing lengths
+	// and computing checksums are compared after a second round instead
+	verifAssert(verifDeepEqualExcept(&l, &l2, "(?i)checksum|length|len$|crc|fcs"), "same field values after serialize then decode")
+	buf2 := gopacket.NewSerializeBuffer()
+	pay2 := l2.LayerPayload()
+	pb2, _ := buf2.AppendBytes(len(pay2))
+	copy(pb2, pay2)
+	if err := l2.SerializeTo(buf2, gopacket.SerializeOptions{FixLengths: true, ComputeChecksums: true}); err == nil {
+		verifAssert(bytes.Equal(buf2.Bytes(), out), "writing the decoded layer once more reproduces the same bytes")
+	}
 	verifReached("roundtrip")
 }
 
@@ -1049,7 +1341,17 @@ func verif_C06_rt_ICMPv6() {
 	verifAssert(err == nil, "written bytes decode without error")
 	verifAssert(!df2.t, "written bytes decode without truncation flag")
 	verifAssert(bytes.Equal(l2.LayerPayload(), pay), "same payload after the round trip")
-	verifAssert(verifDeepEqual(&l, &l2), "same field values after serialize then decode")
+	// fields that SerializeTo is documented to overwrite when fixing lengths
+	// and computing checksums are compared after a second round instead
+	verifAssert(verifDeepEqualExcept(&l, &l2, "(?i)checksum|length|len$|crc|fcs"), "same field values after serialize then decode")
+	l2.SetNetworkLayerForChecksum(c06Net4)
+	buf2 := gopacket.NewSerializeBuffer()
+	pay2 := l2.LayerPayload()
+	pb2, _ := buf2.AppendBytes(len(pay2))
+	copy(pb2, pay2)
+	if err := l2.SerializeTo(buf2, gopacket.SerializeOptions{FixLengths: true, ComputeChecksums: true}); err == nil {
+		verifAssert(bytes.Equal(buf2.Bytes(), out), "writing the decoded layer once more reproduces the same bytes")
+	}
 	verifReached("roundtrip")
 }
 
@@ -1081,7 +1383,16 @@ func verif_C06_rt_ICMPv6Echo() {
 	verifAssert(err == nil, "written bytes decode without error")
 	verifAssert(!df2.t, "written bytes decode without truncation flag")
 	verifAssert(bytes.Equal(l2.LayerPayload(), pay), "same payload after the round trip")
-	verifAssert(verifDeepEqual(&l, &l2), "same field values after serialize then decode")
+	// fields that SerializeTo is documented to overwrite when fixing lengths
+	// and computing checksums are compared after a second round instead
+	verifAssert(verifDeepEqualExcept(&l, &l2, "(?i)checksum|length|len$|crc|fcs"), "same field values after serialize then decode")
+	buf2 := gopacket.NewSerializeBuffer()
+	pay2 := l2.LayerPayload()
+	pb2, _ := buf2.AppendBytes(len(pay2))
+	copy(pb2, pay2)
+	if err := l2.SerializeTo(buf2, gopacket.SerializeOptions{FixLengths: true, ComputeChecksums: true}); err == nil {
+		verifAssert(bytes.Equal(buf2.Bytes(), out), "writing the decoded layer once more reproduces the same bytes")
+	}
 	verifReached("roundtrip")
 }
 
@@ -1113,7 +1424,16 @@ func verif_C06_rt_ICMPv6NeighborAdvertisement() {
 	verifAssert(err == nil, "written bytes decode without error")
 	verifAssert(!df2.t, "written bytes decode without truncation flag")
 	verifAssert(bytes.Equal(l2.LayerPayload(), pay), "same payload after the round trip")
-	verifAssert(verifDeepEqual(&l, &l2), "same field values after serialize then decode")
+	// fields that SerializeTo is documented to overwrite when fixing lengths
+	// and computing checksums are compared after a second round instead
+	verifAssert(verifDeepEqualExcept(&l, &l2, "(?i)checksum|length|len$|crc|fcs"), "same field values after serialize then decode")
+	buf2 := gopacket.NewSerializeBuffer()
+	pay2 := l2.LayerPayload()
+	pb2, _ := buf2.AppendBytes(len(pay2))
+	copy(pb2, pay2)
+	if err := l2.SerializeTo(buf2, gopacket.SerializeOptions{FixLengths: true, ComputeChecksums: true}); err == nil {
+		verifAssert(bytes.Equal(buf2.Bytes(), out), "writing the decoded layer once more reproduces the same bytes")
+	}
 	verifReached("roundtrip")
 }
 
@@ -1145,7 +1465,16 @@ func verif_C06_rt_ICMPv6NeighborSolicitation() {
 	verifAssert(err == nil, "written bytes decode without error")
 	verifAssert(!df2.t, "written bytes decode without truncation flag")
 	verifAssert(bytes.Equal(l2.LayerPayload(), pay), "same payload after the round trip")
-	verifAssert(verifDeepEqual(&l, &l2), "same field values after serialize then decode")
+	// fields that SerializeTo is documented to overwrite when fixing lengths
+	// and computing checksums are compared after a second round instead
+	verifAssert(verifDeepEqualExcept(&l, &l2, "(?i)checksum|length|len$|crc|fcs"), "same field values after serialize then decode")
+	buf2 := gopacket.NewSerializeBuffer()
+	pay2 := l2.LayerPayload()
+	pb2, _ := buf2.AppendBytes(len(pay2))
+	copy(pb2, pay2)
+	if err := l2.SerializeTo(buf2, gopacket.SerializeOptions{FixLengths: true, ComputeChecksums: true}); err == nil {
+		verifAssert(bytes.Equal(buf2.Bytes(), out), "writing the decoded layer once more reproduces the same bytes")
+	}
 	verifReached("roundtrip")
 }
 
@@ -1177,7 +1506,16 @@ func verif_C06_rt_ICMPv6Redirect() {
 	verifAssert(err == nil, "written bytes decode without error")
 	verifAssert(!df2.t, "written bytes decode without truncation flag")
 	verifAssert(bytes.Equal(l2.LayerPayload(), pay), "same payload after the round trip")
-	verifAssert(verifDeepEqual(&l, &l2), "same field values after serialize then decode")
+	// fields that SerializeTo is documented to overwrite when fixing lengths
+	// and computing checksums are compared after a second round instead
+	verifAssert(verifDeepEqualExcept(&l, &l2, "(?i)checksum|length|len$|crc|fcs"), "same field values after serialize then decode")
+	buf2 := gopacket.NewSerializeBuffer()
+	pay2 := l2.LayerPayload()
+	pb2, _ := buf2.AppendBytes(len(pay2))
+	copy(pb2, pay2)
+	if err := l2.SerializeTo(buf2, gopacket.SerializeOptions{FixLengths: true, ComputeChecksums: true}); err == nil {
+		verifAssert(bytes.Equal(buf2.Bytes(), out), "writing the decoded layer once more reproduces the same bytes")
+	}
 	verifReached("roundtrip")
 }
 
@@ -1209,7 +1547,16 @@ func verif_C06_rt_ICMPv6RouterAdvertisement() {
 	verifAssert(err == nil, "written bytes decode without error")
 	verifAssert(!df2.t, "written bytes decode without truncation flag")
 	verifAssert(bytes.Equal(l2.LayerPayload(), pay), "same payload after the round trip")
-	verifAssert(verifDeepEqual(&l, &l2), "same field values after serialize then decode")
+	// fields that SerializeTo is documented to overwrite when fixing lengths
+	// and computing checksums are compared after a second round instead
+	verifAssert(verifDeepEqualExcept(&l, &l2, "(?i)checksum|length|len$|crc|fcs"), "same field values after serialize then decode")
+	buf2 := gopacket.NewSerializeBuffer()
+	pay2 := l2.LayerPayload()
+	pb2, _ := buf2.AppendBytes(len(pay2))
+	copy(pb2, pay2)
+	if err := l2.SerializeTo(buf2, gopacket.SerializeOptions{FixLengths: true, ComputeChecksums: true}); err == nil {
+		verifAssert(bytes.Equal(buf2.Bytes(), out), "writing the decoded layer once more reproduces the same bytes")
+	}
 	verifReached("roundtrip")
 }
 
@@ -1241,7 +1588,16 @@ func verif_C06_rt_ICMPv6RouterSolicitation() {
 	verifAssert(err == nil, "written bytes decode without error")
 	verifAssert(!df2.t, "written bytes decode without truncation flag")
 	verifAssert(bytes.Equal(l2.LayerPayload(), pay), "same payload after the round trip")
-	verifAssert(verifDeepEqual(&l, &l2), "same field values after serialize then decode")
+	// fields that SerializeTo is documented to overwrite when fixing lengths
+	// and computing checksums are compared after a second round instead
+	verifAssert(verifDeepEqualExcept(&l, &l2, "(?i)checksum|length|len$|crc|fcs"), "same field values after serialize then decode")
+	buf2 := gopacket.NewSerializeBuffer()
+	pay2 := l2.LayerPayload()
+	pb2, _ := buf2.AppendBytes(len(pay2))
+	copy(pb2, pay2)
+	if err := l2.SerializeTo(buf2, gopacket.SerializeOptions{FixLengths: true, ComputeChecksums: true}); err == nil {
+		verifAssert(bytes.Equal(buf2.Bytes(), out), "writing the decoded layer once more reproduces the same bytes")
+	}
 	verifReached("roundtrip")
 }
 
@@ -1273,7 +1629,16 @@ func verif_C06_rt_IPv4() {
 	verifAssert(err == nil, "written bytes decode without error")
 	verifAssert(!df2.t, "written bytes decode without truncation flag")
 	verifAssert(bytes.Equal(l2.LayerPayload(), pay), "same payload after the round trip")
-	verifAssert(verifDeepEqual(&l, &l2), "same field values after serialize then decode")
+	// fields that SerializeTo is documented to overwrite when fixing lengths
+	// and computing checksums are compared after a second round instead
+	verifAssert(verifDeepEqualExcept(&l, &l2, "(?i)checksum|length|len$|crc|fcs"), "same field values after serialize then decode")
+	buf2 := gopacket.NewSerializeBuffer()
+	pay2 := l2.LayerPayload()
+	pb2, _ := buf2.AppendBytes(len(pay2))
+	copy(pb2, pay2)
+	if err := l2.SerializeTo(buf2, gopacket.SerializeOptions{FixLengths: true, ComputeChecksums: true}); err == nil {
+		verifAssert(bytes.Equal(buf2.Bytes(), out), "writing the decoded layer once more reproduces the same bytes")
+	}
 	verifReached("roundtrip")
 }
 
@@ -1305,7 +1670,16 @@ func verif_C06_rt_IPv6() {
 	verifAssert(err == nil, "written bytes decode without error")
 	verifAssert(!df2.t, "written bytes decode without truncation flag")
 	verifAssert(bytes.Equal(l2.LayerPayload(), pay), "same payload after the round trip")
-	verifAssert(verifDeepEqual(&l, &l2), "same field values after serialize then decode")
+	// fields that SerializeTo is documented to overwrite when fixing lengths
+	// and computing checksums are compared after a second round instead
+	verifAssert(verifDeepEqualExcept(&l, &l2, "(?i)checksum|length|len$|crc|fcs"), "same field values after serialize then decode")
+	buf2 := gopacket.NewSerializeBuffer()
+	pay2 := l2.LayerPayload()
+	pb2, _ := buf2.AppendBytes(len(pay2))
+	copy(pb2, pay2)
+	if err := l2.SerializeTo(buf2, gopacket.SerializeOptions{FixLengths: true, ComputeChecksums: true}); err == nil {
+		verifAssert(bytes.Equal(buf2.Bytes(), out), "writing the decoded layer once more reproduces the same bytes")
+	}
 	verifReached("roundtrip")
 }
 
@@ -1337,7 +1711,16 @@ func verif_C06_rt_IPv6Destination() {
 	verifAssert(err == nil, "written bytes decode without error")
 	verifAssert(!df2.t, "written bytes decode without truncation flag")
 	verifAssert(bytes.Equal(l2.LayerPayload(), pay), "same payload after the round trip")
-	verifAssert(verifDeepEqual(&l, &l2), "same field values after serialize then decode")
+	// fields that SerializeTo is documented to overwrite when fixing lengths
+	// and computing checksums are compared after a second round instead
+	verifAssert(verifDeepEqualExcept(&l, &l2, "(?i)checksum|length|len$|crc|fcs"), "same field values after serialize then decode")
+	buf2 := gopacket.NewSerializeBuffer()
+	pay2 := l2.LayerPayload()
+	pb2, _ := buf2.AppendBytes(len(pay2))
+	copy(pb2, pay2)
+	if err := l2.SerializeTo(buf2, gopacket.SerializeOptions{FixLengths: true, ComputeChecksums: true}); err == nil {
+		verifAssert(bytes.Equal(buf2.Bytes(), out), "writing the decoded layer once more reproduces the same bytes")
+	}
 	verifReached("roundtrip")
 }
 
@@ -1369,7 +1752,16 @@ func verif_C06_rt_IPv6HopByHop() {
 	verifAssert(err == nil, "written bytes decode without error")
 	verifAssert(!df2.t, "written bytes decode without truncation flag")
 	verifAssert(bytes.Equal(l2.LayerPayload(), pay), "same payload after the round trip")
-	verifAssert(verifDeepEqual(&l, &l2), "same field values after serialize then decode")
+	// fields that SerializeTo is documented to overwrite when fixing lengths
+	// and computing checksums are compared after a second round instead
+	verifAssert(verifDeepEqualExcept(&l, &l2, "(?i)checksum|length|len$|crc|fcs"), "same field values after serialize then decode")
+	buf2 := gopacket.NewSerializeBuffer()
+	pay2 := l2.LayerPayload()
+	pb2, _ := buf2.AppendBytes(len(pay2))
+	copy(pb2, pay2)
+	if err := l2.SerializeTo(buf2, gopacket.SerializeOptions{FixLengths: true, ComputeChecksums: true}); err == nil {
+		verifAssert(bytes.Equal(buf2.Bytes(), out), "writing the decoded layer once more reproduces the same bytes")
+	}
 	verifReached("roundtrip")
 }
 
@@ -1401,7 +1793,16 @@ func verif_C06_rt_LLC() {
 	verifAssert(err == nil, "written bytes decode without error")
 	verifAssert(!df2.t, "written bytes decode without truncation flag")
 	verifAssert(bytes.Equal(l2.LayerPayload(), pay), "same payload after the round trip")
-	verifAssert(verifDeepEqual(&l, &l2), "same field values after serialize then decode")
+	// fields that SerializeTo is documented to overwrite when fixing lengths
+	// and computing checksums are compared after a second round instead
+	verifAssert(verifDeepEqualExcept(&l, &l2, "(?i)checksum|length|len$|crc|fcs"), "same field values after serialize then decode")
+	buf2 := gopacket.NewSerializeBuffer()
+	pay2 := l2.LayerPayload()
+	pb2, _ := buf2.AppendBytes(len(pay2))
+	copy(pb2, pay2)
+	if err := l2.SerializeTo(buf2, gopacket.SerializeOptions{FixLengths: true, ComputeChecksums: true}); err == nil {
+		verifAssert(bytes.Equal(buf2.Bytes(), out), "writing the decoded layer once more reproduces the same bytes")
+	}
 	verifReached("roundtrip")
 }
 
@@ -1433,7 +1834,16 @@ func verif_C06_rt_Loopback() {
 	verifAssert(err == nil, "written bytes decode without error")
 	verifAssert(!df2.t, "written bytes decode without truncation flag")
 	verifAssert(bytes.Equal(l2.LayerPayload(), pay), "same payload after the round trip")
-	verifAssert(verifDeepEqual(&l, &l2), "same field values after serialize then decode")
+	// fields that SerializeTo is documented to overwrite when fixing lengths
+	// and computing checksums are compared after a second round instead
+	verifAssert(verifDeepEqualExcept(&l, &l2, "(?i)checksum|length|len$|crc|fcs"), "same field values after serialize then decode")
+	buf2 := gopacket.NewSerializeBuffer()
+	pay2 := l2.LayerPayload()
+	pb2, _ := buf2.AppendBytes(len(pay2))
+	copy(pb2, pay2)
+	if err := l2.SerializeTo(buf2, gopacket.SerializeOptions{FixLengths: true, ComputeChecksums: true}); err == nil {
+		verifAssert(bytes.Equal(buf2.Bytes(), out), "writing the decoded layer once more reproduces the same bytes")
+	}
 	verifReached("roundtrip")
 }
 
@@ -1465,7 +1875,16 @@ func verif_C06_rt_MDP() {
 	verifAssert(err == nil, "written bytes decode without error")
 	verifAssert(!df2.t, "written bytes decode without truncation flag")
 	verifAssert(bytes.Equal(l2.LayerPayload(), pay), "same payload after the round trip")
-	verifAssert(verifDeepEqual(&l, &l2), "same field values after serialize then decode")
+	// fields that SerializeTo is documented to overwrite when fixing lengths
+	// and computing checksums are compared after a second round instead
+	verifAssert(verifDeepEqualExcept(&l, &l2, "(?i)checksum|length|len$|crc|fcs"), "same field values after serialize then decode")
+	buf2 := gopacket.NewSerializeBuffer()
+	pay2 := l2.LayerPayload()
+	pb2, _ := buf2.AppendBytes(len(pay2))
+	copy(pb2, pay2)
+	if err := l2.SerializeTo(buf2, gopacket.SerializeOptions{FixLengths: true, ComputeChecksums: true}); err == nil {
+		verifAssert(bytes.Equal(buf2.Bytes(), out), "writing the decoded layer once more reproduces the same bytes")
+	}
 	verifReached("roundtrip")
 }
 
@@ -1497,7 +1916,16 @@ func verif_C06_rt_MLDv1Message() {
 	verifAssert(err == nil, "written bytes decode without error")
 	verifAssert(!df2.t, "written bytes decode without truncation flag")
 	verifAssert(bytes.Equal(l2.LayerPayload(), pay), "same payload after the round trip")
-	verifAssert(verifDeepEqual(&l, &l2), "same field values after serialize then decode")
+	// fields that SerializeTo is documented to overwrite when fixing lengths
+	// and computing checksums are compared after a second round instead
+	verifAssert(verifDeepEqualExcept(&l, &l2, "(?i)checksum|length|len$|crc|fcs"), "same field values after serialize then decode")
+	buf2 := gopacket.NewSerializeBuffer()
+	pay2 := l2.LayerPayload()
+	pb2, _ := buf2.AppendBytes(len(pay2))
+	copy(pb2, pay2)
+	if err := l2.SerializeTo(buf2, gopacket.SerializeOptions{FixLengths: true, ComputeChecksums: true}); err == nil {
+		verifAssert(bytes.Equal(buf2.Bytes(), out), "writing the decoded layer once more reproduces the same bytes")
+	}
 	verifReached("roundtrip")
 }
 
@@ -1529,7 +1957,16 @@ func verif_C06_rt_MLDv1MulticastListenerDoneMessage() {
 	verifAssert(err == nil, "written bytes decode without error")
 	verifAssert(!df2.t, "written bytes decode without truncation flag")
 	verifAssert(bytes.Equal(l2.LayerPayload(), pay), "same payload after the round trip")
-	verifAssert(verifDeepEqual(&l, &l2), "same field values after serialize then decode")
+	// fields that SerializeTo is documented to overwrite when fixing lengths
+	// and computing checksums are compared after a second round instead
+	verifAssert(verifDeepEqualExcept(&l, &l2, "(?i)checksum|length|len$|crc|fcs"), "same field values after serialize then decode")
+	buf2 := gopacket.NewSerializeBuffer()
+	pay2 := l2.LayerPayload()
+	pb2, _ := buf2.AppendBytes(len(pay2))
+	copy(pb2, pay2)
+	if err := l2.SerializeTo(buf2, gopacket.SerializeOptions{FixLengths: true, ComputeChecksums: true}); err == nil {
+		verifAssert(bytes.Equal(buf2.Bytes(), out), "writing the decoded layer once more reproduces the same bytes")
+	}
 	verifReached("roundtrip")
 }
 
@@ -1561,7 +1998,16 @@ func verif_C06_rt_MLDv1MulticastListenerQueryMessage() {
 	verifAssert(err == nil, "written bytes decode without error")
 	verifAssert(!df2.t, "written bytes decode without truncation flag")
 	verifAssert(bytes.Equal(l2.LayerPayload(), pay), "same payload after the round trip")
-	verifAssert(verifDeepEqual(&l, &l2), "same field values after serialize then decode")
+	// fields that SerializeTo is documented to overwrite when fixing lengths
+	// and computing checksums are compared after a second round instead
+	verifAssert(verifDeepEqualExcept(&l, &l2, "(?i)checksum|length|len$|crc|fcs"), "same field values after serialize then decode")
+	buf2 := gopacket.NewSerializeBuffer()
+	pay2 := l2.LayerPayload()
+	pb2, _ := buf2.AppendBytes(len(pay2))
+	copy(pb2, pay2)
+	if err := l2.SerializeTo(buf2, gopacket.SerializeOptions{FixLengths: true, ComputeChecksums: true}); err == nil {
+		verifAssert(bytes.Equal(buf2.Bytes(), out), "writing the decoded layer once more reproduces the same bytes")
+	}
 	verifReached("roundtrip")
 }
 
@@ -1593,7 +2039,16 @@ func verif_C06_rt_MLDv1MulticastListenerReportMessage() {
 	verifAssert(err == nil, "written bytes decode without error")
 	verifAssert(!df2.t, "written bytes decode without truncation flag")
 	verifAssert(bytes.Equal(l2.LayerPayload(), pay), "same payload after the round trip")
-	verifAssert(verifDeepEqual(&l, &l2), "same field values after serialize then decode")
+	// fields that SerializeTo is documented to overwrite when fixing lengths
+	// and computing checksums are compared after a second round instead
+	verifAssert(verifDeepEqualExcept(&l, &l2, "(?i)checksum|length|len$|crc|fcs"), "same field values after serialize then decode")
+	buf2 := gopacket.NewSerializeBuffer()
+	pay2 := l2.LayerPayload()
+	pb2, _ := buf2.AppendBytes(len(pay2))
+	copy(pb2, pay2)
+	if err := l2.SerializeTo(buf2, gopacket.SerializeOptions{FixLengths: true, ComputeChecksums: true}); err == nil {
+		verifAssert(bytes.Equal(buf2.Bytes(), out), "writing the decoded layer once more reproduces the same bytes")
+	}
 	verifReached("roundtrip")
 }
 
@@ -1625,7 +2080,16 @@ func verif_C06_rt_MLDv2MulticastListenerQueryMessage() {
 	verifAssert(err == nil, "written bytes decode without error")
 	verifAssert(!df2.t, "written bytes decode without truncation flag")
 	verifAssert(bytes.Equal(l2.LayerPayload(), pay), "same payload after the round trip")
-	verifAssert(verifDeepEqual(&l, &l2), "same field values after serialize then decode")
+	// fields that SerializeTo is documented to overwrite when fixing lengths
+	// and computing checksums are compared after a second round instead
+	verifAssert(verifDeepEqualExcept(&l, &l2, "(?i)checksum|length|len$|crc|fcs"), "same field values after serialize then decode")
+	buf2 := gopacket.NewSerializeBuffer()
+	pay2 := l2.LayerPayload()
+	pb2, _ := buf2.AppendBytes(len(pay2))
+	copy(pb2, pay2)
+	if err := l2.SerializeTo(buf2, gopacket.SerializeOptions{FixLengths: true, ComputeChecksums: true}); err == nil {
+		verifAssert(bytes.Equal(buf2.Bytes(), out), "writing the decoded layer once more reproduces the same bytes")
+	}
 	verifReached("roundtrip")
 }
 
@@ -1657,7 +2121,16 @@ func verif_C06_rt_MLDv2MulticastListenerReportMessage() {
 	verifAssert(err == nil, "written bytes decode without error")
 	verifAssert(!df2.t, "written bytes decode without truncation flag")
 	verifAssert(bytes.Equal(l2.LayerPayload(), pay), "same payload after the round trip")
-	verifAssert(verifDeepEqual(&l, &l2), "same field values after serialize then decode")
+	// fields that SerializeTo is documented to overwrite when fixing lengths
+	// and computing checksums are compared after a second round instead
+	verifAssert(verifDeepEqualExcept(&l, &l2, "(?i)checksum|length|len$|crc|fcs"), "same field values after serialize then decode")
+	buf2 := gopacket.NewSerializeBuffer()
+	pay2 := l2.LayerPayload()
+	pb2, _ := buf2.AppendBytes(len(pay2))
+	copy(pb2, pay2)
+	if err := l2.SerializeTo(buf2, gopacket.SerializeOptions{FixLengths: true, ComputeChecksums: true}); err == nil {
+		verifAssert(bytes.Equal(buf2.Bytes(), out), "writing the decoded layer once more reproduces the same bytes")
+	}
 	verifReached("roundtrip")
 }
 
@@ -1689,7 +2162,16 @@ func verif_C06_rt_NTP() {
 	verifAssert(err == nil, "written bytes decode without error")
 	verifAssert(!df2.t, "written bytes decode without truncation flag")
 	verifAssert(bytes.Equal(l2.LayerPayload(), pay), "same payload after the round trip")
-	verifAssert(verifDeepEqual(&l, &l2), "same field values after serialize then decode")
+	// fields that SerializeTo is documented to overwrite when fixing lengths
+	// and computing checksums are compared after a second round instead
+	verifAssert(verifDeepEqualExcept(&l, &l2, "(?i)checksum|length|len$|crc|fcs"), "same field values after serialize then decode")
+	buf2 := gopacket.NewSerializeBuffer()
+	pay2 := l2.LayerPayload()
+	pb2, _ := buf2.AppendBytes(len(pay2))
+	copy(pb2, pay2)
+	if err := l2.SerializeTo(buf2, gopacket.SerializeOptions{FixLengths: true, ComputeChecksums: true}); err == nil {
+		verifAssert(bytes.Equal(buf2.Bytes(), out), "writing the decoded layer once more reproduces the same bytes")
+	}
 	verifReached("roundtrip")
 }
 
@@ -1721,7 +2203,16 @@ func verif_C06_rt_RADIUS() {
 	verifAssert(err == nil, "written bytes decode without error")
 	verifAssert(!df2.t, "written bytes decode without truncation flag")
 	verifAssert(bytes.Equal(l2.LayerPayload(), pay), "same payload after the round trip")
-	verifAssert(verifDeepEqual(&l, &l2), "same field values after serialize then decode")
+	// fields that SerializeTo is documented to overwrite when fixing lengths
+	// and computing checksums are compared after a second round instead
+	verifAssert(verifDeepEqualExcept(&l, &l2, "(?i)checksum|length|len$|crc|fcs"), "same field values after serialize then decode")
+	buf2 := gopacket.NewSerializeBuffer()
+	pay2 := l2.LayerPayload()
+	pb2, _ := buf2.AppendBytes(len(pay2))
+	copy(pb2, pay2)
+	if err := l2.SerializeTo(buf2, gopacket.SerializeOptions{FixLengths: true, ComputeChecksums: true}); err == nil {
+		verifAssert(bytes.Equal(buf2.Bytes(), out), "writing the decoded layer once more reproduces the same bytes")
+	}
 	verifReached("roundtrip")
 }
 
@@ -1753,7 +2244,16 @@ func verif_C06_rt_RMCP() {
 	verifAssert(err == nil, "written bytes decode without error")
 	verifAssert(!df2.t, "written bytes decode without truncation flag")
 	verifAssert(bytes.Equal(l2.LayerPayload(), pay), "same payload after the round trip")
-	verifAssert(verifDeepEqual(&l, &l2), "same field values after serialize then decode")
+	// fields that SerializeTo is documented to overwrite when fixing lengths
+	// and computing checksums are compared after a second round instead
+	verifAssert(verifDeepEqualExcept(&l, &l2, "(?i)checksum|length|len$|crc|fcs"), "same field values after serialize then decode")
+	buf2 := gopacket.NewSerializeBuffer()
+	pay2 := l2.LayerPayload()
+	pb2, _ := buf2.AppendBytes(len(pay2))
+	copy(pb2, pay2)
+	if err := l2.SerializeTo(buf2, gopacket.SerializeOptions{FixLengths: true, ComputeChecksums: true}); err == nil {
+		verifAssert(bytes.Equal(buf2.Bytes(), out), "writing the decoded layer once more reproduces the same bytes")
+	}
 	verifReached("roundtrip")
 }
 
@@ -1785,7 +2285,16 @@ func verif_C06_rt_RadioTap() {
 	verifAssert(err == nil, "written bytes decode without error")
 	verifAssert(!df2.t, "written bytes decode without truncation flag")
 	verifAssert(bytes.Equal(l2.LayerPayload(), pay), "same payload after the round trip")
-	verifAssert(verifDeepEqual(&l, &l2), "same field values after serialize then decode")
+	// fields that SerializeTo is documented to overwrite when fixing lengths
+	// and computing checksums are compared after a second round instead
+	verifAssert(verifDeepEqualExcept(&l, &l2, "(?i)checksum|length|len$|crc|fcs"), "same field values after serialize then decode")
+	buf2 := gopacket.NewSerializeBuffer()
+	pay2 := l2.LayerPayload()
+	pb2, _ := buf2.AppendBytes(len(pay2))
+	copy(pb2, pay2)
+	if err := l2.SerializeTo(buf2, gopacket.SerializeOptions{FixLengths: true, ComputeChecksums: true}); err == nil {
+		verifAssert(bytes.Equal(buf2.Bytes(), out), "writing the decoded layer once more reproduces the same bytes")
+	}
 	verifReached("roundtrip")
 }
 
@@ -1817,7 +2326,16 @@ func verif_C06_rt_SCTP() {
 	verifAssert(err == nil, "written bytes decode without error")
 	verifAssert(!df2.t, "written bytes decode without truncation flag")
 	verifAssert(bytes.Equal(l2.LayerPayload(), pay), "same payload after the round trip")
-	verifAssert(verifDeepEqual(&l, &l2), "same field values after serialize then decode")
+	// fields that SerializeTo is documented to overwrite when fixing lengths
+	// and computing checksums are compared after a second round instead
+	verifAssert(verifDeepEqualExcept(&l, &l2, "(?i)checksum|length|len$|crc|fcs"), "same field values after serialize then decode")
+	buf2 := gopacket.NewSerializeBuffer()
+	pay2 := l2.LayerPayload()
+	pb2, _ := buf2.AppendBytes(len(pay2))
+	copy(pb2, pay2)
+	if err := l2.SerializeTo(buf2, gopacket.SerializeOptions{FixLengths: true, ComputeChecksums: true}); err == nil {
+		verifAssert(bytes.Equal(buf2.Bytes(), out), "writing the decoded layer once more reproduces the same bytes")
+	}
 	verifReached("roundtrip")
 }
 
@@ -1849,7 +2367,16 @@ func verif_C06_rt_SNAP() {
 	verifAssert(err == nil, "written bytes decode without error")
 	verifAssert(!df2.t, "written bytes decode without truncation flag")
 	verifAssert(bytes.Equal(l2.LayerPayload(), pay), "same payload after the round trip")
-	verifAssert(verifDeepEqual(&l, &l2), "same field values after serialize then decode")
+	// fields that SerializeTo is documented to overwrite when fixing lengths
+	// and computing checksums are compared after a second round instead
+	verifAssert(verifDeepEqualExcept(&l, &l2, "(?i)checksum|length|len$|crc|fcs"), "same field values after serialize then decode")
+	buf2 := gopacket.NewSerializeBuffer()
+	pay2 := l2.LayerPayload()
+	pb2, _ := buf2.AppendBytes(len(pay2))
+	copy(pb2, pay2)
+	if err := l2.SerializeTo(buf2, gopacket.SerializeOptions{FixLengths: true, ComputeChecksums: true}); err == nil {
+		verifAssert(bytes.Equal(buf2.Bytes(), out), "writing the decoded layer once more reproduces the same bytes")
+	}
 	verifReached("roundtrip")
 }
 
@@ -1881,7 +2408,16 @@ func verif_C06_rt_STP() {
 	verifAssert(err == nil, "written bytes decode without error")
 	verifAssert(!df2.t, "written bytes decode without truncation flag")
 	verifAssert(bytes.Equal(l2.LayerPayload(), pay), "same payload after the round trip")
-	verifAssert(verifDeepEqual(&l, &l2), "same field values after serialize then decode")
+	// fields that SerializeTo is documented to overwrite when fixing lengths
+	// and computing checksums are compared after a second round instead
+	verifAssert(verifDeepEqualExcept(&l, &l2, "(?i)checksum|length|len$|crc|fcs"), "same field values after serialize then decode")
+	buf2 := gopacket.NewSerializeBuffer()
+	pay2 := l2.LayerPayload()
+	pb2, _ := buf2.AppendBytes(len(pay2))
+	copy(pb2, pay2)
+	if err := l2.SerializeTo(buf2, gopacket.SerializeOptions{FixLengths: true, ComputeChecksums: true}); err == nil {
+		verifAssert(bytes.Equal(buf2.Bytes(), out), "writing the decoded layer once more reproduces the same bytes")
+	}
 	verifReached("roundtrip")
 }
 
@@ -1914,7 +2450,17 @@ func verif_C06_rt_TCP() {
 	verifAssert(err == nil, "written bytes decode without error")
 	verifAssert(!df2.t, "written bytes decode without truncation flag")
 	verifAssert(bytes.Equal(l2.LayerPayload(), pay), "same payload after the round trip")
-	verifAssert(verifDeepEqual(&l, &l2), "same field values after serialize then decode")
+	// fields that SerializeTo is documented to overwrite when fixing lengths
+	// and computing checksums are compared after a second round instead
+	verifAssert(verifDeepEqualExcept(&l, &l2, "(?i)checksum|length|len$|crc|fcs"), "same field values after serialize then decode")
+	l2.SetNetworkLayerForChecksum(c06Net4)
+	buf2 := gopacket.NewSerializeBuffer()
+	pay2 := l2.LayerPayload()
+	pb2, _ := buf2.AppendBytes(len(pay2))
+	copy(pb2, pay2)
+	if err := l2.SerializeTo(buf2, gopacket.SerializeOptions{FixLengths: true, ComputeChecksums: true}); err == nil {
+		verifAssert(bytes.Equal(buf2.Bytes(), out), "writing the decoded layer once more reproduces the same bytes")
+	}
 	verifReached("roundtrip")
 }
 
@@ -1946,7 +2492,16 @@ func verif_C06_rt_TLS() {
 	verifAssert(err == nil, "written bytes decode without error")
 	verifAssert(!df2.t, "written bytes decode without truncation flag")
 	verifAssert(bytes.Equal(l2.LayerPayload(), pay), "same payload after the round trip")
-	verifAssert(verifDeepEqual(&l, &l2), "same field values after serialize then decode")
+	// fields that SerializeTo is documented to overwrite when fixing lengths
+	// and computing checksums are compared after a second round instead
+	verifAssert(verifDeepEqualExcept(&l, &l2, "(?i)checksum|length|len$|crc|fcs"), "same field values after serialize then decode")
+	buf2 := gopacket.NewSerializeBuffer()
+	pay2 := l2.LayerPayload()
+	pb2, _ := buf2.AppendBytes(len(pay2))
+	copy(pb2, pay2)
+	if err := l2.SerializeTo(buf2, gopacket.SerializeOptions{FixLengths: true, ComputeChecksums: true}); err == nil {
+		verifAssert(bytes.Equal(buf2.Bytes(), out), "writing the decoded layer once more reproduces the same bytes")
+	}
 	verifReached("roundtrip")
 }
 
@@ -1979,7 +2534,17 @@ func verif_C06_rt_UDP() {
 	verifAssert(err == nil, "written bytes decode without error")
 	verifAssert(!df2.t, "written bytes decode without truncation flag")
 	verifAssert(bytes.Equal(l2.LayerPayload(), pay), "same payload after the round trip")
-	verifAssert(verifDeepEqual(&l, &l2), "same field values after serialize then decode")
+	// fields that SerializeTo is documented to overwrite when fixing lengths
+	// and computing checksums are compared after a second round instead
+	verifAssert(verifDeepEqualExcept(&l, &l2, "(?i)checksum|length|len$|crc|fcs"), "same field values after serialize then decode")
+	l2.SetNetworkLayerForChecksum(c06Net4)
+	buf2 := gopacket.NewSerializeBuffer()
+	pay2 := l2.LayerPayload()
+	pb2, _ := buf2.AppendBytes(len(pay2))
+	copy(pb2, pay2)
+	if err := l2.SerializeTo(buf2, gopacket.SerializeOptions{FixLengths: true, ComputeChecksums: true}); err == nil {
+		verifAssert(bytes.Equal(buf2.Bytes(), out), "writing the decoded layer once more reproduces the same bytes")
+	}
 	verifReached("roundtrip")
 }
 
@@ -2011,6 +2576,15 @@ func verif_C06_rt_VXLAN() {
 	verifAssert(err == nil, "written bytes decode without error")
 	verifAssert(!df2.t, "written bytes decode without truncation flag")
 	verifAssert(bytes.Equal(l2.LayerPayload(), pay), "same payload after the round trip")
-	verifAssert(verifDeepEqual(&l, &l2), "same field values after serialize then decode")
+	// fields that SerializeTo is documented to overwrite when fixing lengths
+	// and computing checksums are compared after a second round instead
+	verifAssert(verifDeepEqualExcept(&l, &l2, "(?i)checksum|length|len$|crc|fcs"), "same field values after serialize then decode")
+	buf2 := gopacket.NewSerializeBuffer()
+	pay2 := l2.LayerPayload()
+	pb2, _ := buf2.AppendBytes(len(pay2))
+	copy(pb2, pay2)
+	if err := l2.SerializeTo(buf2, gopacket.SerializeOptions{FixLengths: true, ComputeChecksums: true}); err == nil {
+		verifAssert(bytes.Equal(buf2.Bytes(), out), "writing the decoded layer once more reproduces the same bytes")
+	}
 	verifReached("roundtrip")
 }
